@@ -6,13 +6,14 @@ import PyGqlModel.AsyncExec
     {"op":"blocking","case":<op>}                → BlockingExecutor
   `<op>` = {"kind":"query"|"mutation","fields":[{"key","mode","out"}…]} (see harness/corr/C08_world.py: to_model).
 -/
-open PyGql PyGql.Exec
+open PyGql PyGql.AsyncExec
 
 namespace Driver.AsyncExecOps
 
 def modeOf : String → Mode
   | "deferred" => .deferred
   | "nested" => .nested
+  | "ready" => .ready
   | _ => .sync
 
 mutual
